@@ -136,6 +136,20 @@ let diskset_case (rest : string) : string =
                    | DiskSetModel.WUB why -> "ub" ^ string_of_int (int_of_n why))) (words probes))
   | _ -> failwith "bad D case"
 
+(* H <num>:<vol>:<disks>:<sys>:<set>:<time>:<tab>.<tab>... ...   the headers of the files of a SADUMP
+   disk set in the order passed (ids as small numbers); output: open=<status of sadump_probe> *)
+let hdr_case (rest : string) : string =
+  let hs = Stdlib.List.map (fun t -> match split_on ':' t with
+    | [num; vol; disks; sys; set; time; tab] ->
+        { DiskSetModel.h_num = n_of_hex num; h_pos = BinNums.Z0; h_len = BinNums.Z0;
+          h_bs = n_of_hex "1000"; h_sys = n_of_hex sys; h_set = n_of_hex set; h_time = n_of_hex time;
+          h_vol = n_of_hex vol; h_disks = n_of_hex disks;
+          h_table = Stdlib.List.map n_of_hex (Stdlib.List.filter (fun x -> x <> "") (split_on '.' tab)) }
+    | _ -> failwith "bad header") (words rest) in
+  match DiskSetModel.probe_set false hs with
+  | Datatypes.Coq_inl _ -> "open=0"
+  | Datatypes.Coq_inr st -> "open=" ^ string_of_int (int_of_n st)
+
 let run_case (line : string) : string =
   let n = String.length line in
   if n < 2 then failwith "empty case" else
@@ -144,6 +158,7 @@ let run_case (line : string) : string =
   | 'F' -> flat_case rest
   | 'S' -> split_case rest
   | 'D' -> diskset_case rest
+  | 'H' -> hdr_case rest
   | _ -> failwith "bad case kind"
 
 (* Spec judge.
